@@ -209,17 +209,27 @@ where
     }
 
     /// Delete an event from the database table.
+    ///
+    /// Deletes the most recent event with the given commit hash
+    /// that belongs to the account or folder; events in other
+    /// event logs stored in the same table and earlier events
+    /// with the same commit hash are not affected.
     pub fn delete_one(
         &self,
         log_type: EventLogType,
+        account_or_folder_id: i64,
         commit_hash: &CommitHash,
     ) -> Result<(), SqlError> {
         let table: EventTable = log_type.into();
         let query = sql::Delete::new()
             .delete_from(table.as_str())
-            .where_clause("commit_hash = ?1");
+            .where_clause(&format!(
+                "event_id = (SELECT MAX(event_id) FROM {} WHERE {}=?1 AND commit_hash=?2)",
+                table.as_str(),
+                table.id_column()
+            ));
         let mut stmt = self.conn.prepare_cached(&query.as_string())?;
-        stmt.execute([commit_hash.as_ref()])?;
+        stmt.execute((account_or_folder_id, commit_hash.as_ref()))?;
         Ok(())
     }
 
